@@ -29,6 +29,7 @@ import PoetryVerif.Proofs.MarkerAlgSoundFull4
 import PoetryVerif.Proofs.MarkerAlgSoundFullL
 import PoetryVerif.Proofs.MarkerAlgSoundListCtor
 import PoetryVerif.Proofs.MarkerAlgSoundPairLL
+import PoetryVerif.Proofs.MarkerAlgSoundInvLL
 import PoetryVerif.Proofs.PyConvPairFinal
 import PoetryVerif.Proofs.PyConvPairCompat
 import PoetryVerif.Proofs.MarkerPrint
@@ -910,6 +911,30 @@ example (X Y Z : Nat) (hE : E.get? "python_full_version" = some (Version.relText
     rw [h3]
     decide
 
+/-- **Inversion with lists on both python variables, in the merge domain, no unproved hypothesis**: a list leaf
+inverts to the list leaf of the other polarity on the same value (`in` ↔ `not in`), whose meaning is the negation
+(`pvListLeaf_means`, `pfvListLeaf_means` — two-component tokens of `python_full_version` lists included, which the
+agreement route `lists_ready_to_invert` does not cover); with the seven operators on the python variables and the
+quotable string / `extra` leaves, inversion stays in the domain on which intersection and union are proved. -/
+theorem invert_sound_lists_both {ex : List String} (hX : E.extras = some ex) {X Y Z : Nat} (hE : EnvPy E X Y Z)
+    {a b r : M} :
+    (M.Good (FullInvLeafLL E) a → M.Good (FullInvLeafLL E) b → mIntersect fuel stk a b = .ok r →
+      M.Good (FullInvLeafLL E) r ∧ M.validate E r = .ok (holds E a && holds E b)) ∧
+    (M.Good (FullInvLeafLL E) a → M.Good (FullInvLeafLL E) b → mUnion fuel stk a b = .ok r →
+      M.Good (FullInvLeafLL E) r ∧ M.validate E r = .ok (holds E a || holds E b)) ∧
+    (M.Good (FullInvReadyLL E) a → a.invert = .ok r →
+      M.Good (FullInvLeafLL E) r ∧ M.validate E r = .ok (!holds E a)) := by
+  have S := leafSpec_fullInvLL hX hE
+  refine ⟨fun ha hb h => ?_, fun ha hb h => ?_, fun ha h => ?_⟩
+  · have := intersect_sound_partial S (fun l hl => fullInvLeafLL_evaluable hX hE hl) ha hb h
+    exact ⟨this.1, this.2.2⟩
+  · have := union_sound_partial S (fun l hl => fullInvLeafLL_evaluable hX hE hl) ha hb h
+    exact ⟨this.1, this.2.2⟩
+  · have := M.invert_sound_fullLL hX hE ha h
+    refine ⟨this.1, ?_⟩
+    rw [holds_is_validate E r (M.good_mono (fun l hl => fullInvLeafLL_evaluable hX hE hl) r this.1)]
+    exact congrArg _ this.2
+
 /-- **Inversion preserves truth on every marker of single markers in C06's agreement domain** — no closure
 under merging is needed (inversion never merges), so this covers item classes outside the intersect/union
 domain: a marker all of whose leaves are built from items that agree with the PEP 508 reference evaluator
@@ -1000,8 +1025,7 @@ there, U = unproved, no counterexample known, E = an exception instead of a mark
    `python_full_version`, wildcard literals `== "3.8.*"` / `!= "3.8.*"` (the lists are their sugar), `===`.
 7. U lists on `python_full_version` with a one-component token (`"3"` = `3.*`) or a token of four or more
    components, lists on `python_version` with a token that is not `X.Y`, `in` / `not in` lists on string variables
-   as single leaves (inversion is proved: `lists_ready_to_invert`); inversion of the `python_full_version` lists
-   with two-component tokens (three or more components: `lists_ready_to_invert`).
+   as single leaves (inversion is proved: `lists_ready_to_invert`).
 8. U reversed operands on the version variables (`"3.8" <= python_version`), string values with white space,
    quotes, `|`, `,` or a leading `=` (known finding `generic-literal-whitespace`), `extra` with `in`/`not in`
    (rejected by the constructor), a `platform_release` that is not a version (`unmodelled`), inversion of an
